@@ -8,10 +8,14 @@ solver always tells the truth; the check is about the bridge, not about solving.
 
 'history' keeps one sandbox (one PATH string) for a sequence of installations,
 removals and calls and follows the content of the directories with a model;
-'environment' gives the temporary directory and the PATH entry unusual names.
+'environment' gives the temporary directory and the PATH entry unusual names;
+'channels' makes the solver talk on the channels that do not carry the answer (standard
+error; the standard output of a minisat-style program) and varies the byte layout of the
+answer itself (line ends, separators, one write or many).
 """
 import io
 import os
+import random
 import sys
 
 from hypothesis import strategies as st
@@ -31,6 +35,8 @@ ASSUMPTIONS = [
     "when an unknown 'sameas' coincides with a missing solver either documented error (ValueError, RuntimeError) is accepted",
     "a solver is reachable when some directory of PATH holds a program that can be executed under its name (the search goes on after a file without execute permission or one the kernel refuses); what is reachable is decided at the moment of each call, not once per process",
     "some_solver_installed(names) is expected to be true exactly when one of the names is reachable (no argument: the supported names)",
+    "only standard output (DIMACS conventions) or the result file (minisat convention) carries the answer: whatever the program writes on standard error (any bytes), and whatever a minisat-style program prints on its standard output (ASCII text), is not part of it and does not change verdict or model",
+    "standard output of a DIMACS-convention solver is ASCII text whose lines are comment lines ('c...'), blank lines, one 's' line and 'v' lines; line ends LF or CRLF; tokens of a 'v' line separated by blanks and tabs; the last line may lack its line end; the text may arrive in several writes",
     "names of the temporary directory and of PATH entries: any characters but tab, newline, NUL, '/' (and ':' in PATH); the path is absolute; tokens of a command line are separated by one or more blanks, blanks around it are allowed",
 ]
 
@@ -56,6 +62,52 @@ def build_formula(case):
     for c in case['clauses']:
         F.add_clause(list(c))
     return F
+
+
+def expand_planted(p):
+    """{'nvars', 'clauses', 'blocks'} + (verdict, model) of a formula too large for a truth table, whose
+    answer is known by construction.  p = {'n', 'm', 'rseed', 'unsat'}: a hidden assignment drawn from
+    random.Random(rseed), m clauses of width 1..4 each containing a literal of it; 'unsat' adds the two
+    unit clauses of one variable."""
+    n, m = int(p['n']), int(p['m'])
+    if not (1 <= n <= 4000 and 0 <= m <= 400):
+        raise ValueError("planted formula out of range: {}".format(p))
+    rng = random.Random(p['rseed'])
+    hidden = [v if rng.random() < 0.5 else -v for v in range(1, n + 1)]
+    clauses = []
+    for _ in range(m):
+        w = rng.randint(1, min(4, n))
+        vs = rng.sample(range(1, n + 1), w)
+        c = [v if rng.random() < 0.5 else -v for v in vs]
+        k = rng.randrange(w)
+        c[k] = hidden[abs(c[k]) - 1]
+        clauses.append(c)
+    if p.get('unsat'):
+        x = rng.randint(1, n)
+        clauses.insert(rng.randint(0, len(clauses)), [x])
+        clauses.insert(rng.randint(0, len(clauses)), [-x])
+    return {'nvars': n, 'clauses': clauses, 'blocks': []}, (not p.get('unsat')), hidden
+
+
+def answer_of(case, n, clauses):
+    """(verdict, model the truthful solver prints or None) - from the complete truth table, or, for a
+    planted formula, from its construction (verified here against the clause list)."""
+    if case.get('planted'):
+        _, verdict, hidden = expand_planted(case['planted'])
+        if verdict:
+            if len(hidden) != n or not satisfies(clauses, hidden):
+                raise RuntimeError("harness: the planted assignment does not satisfy the planted formula")
+            return True, hidden
+        units = set(c[0] for c in clauses if len(c) == 1)
+        if not any(-u in units for u in units):
+            raise RuntimeError("harness: planted unsatisfiable formula without complementary unit clauses")
+        return False, None
+    if n > MAXVARS:
+        raise ValueError("case too large for the harness: {} variables".format(n))
+    table = tt.cnf_tt(n, clauses)
+    if table == 0:
+        return False, None
+    return True, kth_model(n, table, case.get('pick', 0))
 
 
 def kth_model(n, table, k):
@@ -91,10 +143,11 @@ def call_bridge(sb, what, fn):
     old_err = sys.stderr
     sys.stderr = io.StringIO()
     try:
-        try:
-            o.value = fn()
-        except (RuntimeError, ValueError) as e:      # the documented errors
-            o.exc = e
+        with sb.quiet_stderr():                      # the programs inherit file descriptor 2
+            try:
+                o.value = fn()
+            except (RuntimeError, ValueError) as e:      # the documented errors
+                o.exc = e
     finally:
         sys.stderr = old_err
     o.calls = sb.collect()
@@ -180,14 +233,13 @@ def execute(case):
     """Run solve() and is_satisfiable() on the case inside a sandbox.
     Returns a dict with everything the oracles need."""
     from cnfgen.utils.solver import supported_satsolvers
+    if case.get('planted'):
+        case = dict(case)
+        case.update(expand_planted(case['planted'])[0])
     F = build_formula(case)
     n = F.number_of_variables()
-    if n > MAXVARS:
-        raise ValueError("case too large for the harness: {} variables".format(n))
     clauses = [list(c) for c in F]
-    table = tt.cnf_tt(n, clauses)
-    verdict = table != 0
-    model = kth_model(n, table, case.get('pick', 0)) if verdict else None
+    verdict, model = answer_of(case, n, clauses)
     shape = case['shape']
     mode = case['mode']
     supported = list(supported_satsolvers())
@@ -209,7 +261,10 @@ def execute(case):
     expect, expect_alt, chosen = expected_outcome(mode, target, sameas, installed, supported, answered)
 
     verbose = case.get('verbose', 0)
-    with fs.Sandbox(**sandbox_options(case.get('env'))) as sb:
+    opts = sandbox_options(case.get('env'))
+    if shape.get('chan'):
+        opts['capture_stderr'] = True
+    with fs.Sandbox(**opts) as sb:
         for name, state in sorted(installed.items()):
             if state in STATES:
                 sb.install(name, behaviours[name], state, verdict, model, shape, n)
@@ -232,6 +287,9 @@ def describe(case, R):
     text = "formula p cnf {} {} {}; cmd={!r} sameas={!r} installed={} answer={}".format(
         R['n'], len(R['clauses']), R['clauses'][:6], R['cmd'], R['sameas'],
         R['installed'], {k: v for k, v in R['shape'].items()})
+    if R['shape'].get('chan') and R['chosen'] is not None:
+        text += "; what the program does: " + fs.describe_channels(
+            R['behaviours'][R['chosen']], R['verdict'], R['model'], R['shape'], R['n'])
     env = case.get('env')
     if env:
         text += "; directory for temporary files <scratch>/T/{} announced through {}, first PATH entry <scratch>/B/{}".format(
@@ -1155,6 +1213,256 @@ def enum_env(tier):
             yield c
 
 
+# ---------------------------------------------------------------------------
+# channels: what the program does besides giving its answer, and how the answer is laid out in bytes
+
+_KEY_KINDS = ['version', 'statistics', 's-line', 'v-line', 'single-word', 'empty', 'long', 'non-ascii', 'c-line']
+_LONG_FILL = len(fs.FILLERS)                  # index (in 'fill') of the 30 kB comment line
+PLANTED_SIZES = [(40, 12), (300, 40), (1500, 60)]
+
+
+def channel_labels(case, R):
+    sh = R['shape']
+    chan = sh.get('chan') or {}
+    L = []
+    if case.get('planted'):
+        L.append('planted-large')
+    if R['expect'] != 'verdict':
+        if any(chan.get(k) for k in ('err_pre', 'err_mid', 'err_post')):
+            L.append('no-answer-with-stderr-text')
+        return L
+    beh = R['behaviours'][R['chosen']]
+    conv = fs.CONVENTION_LABEL[beh]
+    _, _, S = fs.render_plan(beh, R['verdict'], R['model'], sh, R['n'])
+    talk = False
+    for pos in ('pre', 'mid', 'post'):
+        kinds = S['err_kinds'][pos]
+        if kinds:
+            talk = True
+            L.append('err-' + pos)
+        for k in kinds:
+            L.append('err:' + k)
+            L.append('{}/err:{}'.format(conv, k))
+    L.append('stderr-talks' if talk else 'stderr-silent')
+    if talk:
+        L.append(conv + '/stderr-talks')
+        if chan.get('err_eol') == 'crlf':
+            L.append('err-crlf')
+        if chan.get('err_open'):
+            L.append('err-open-end')
+    for k in S['noise_kinds']:
+        L.append('fileout-stdout-noise:' + k)
+    if chan.get('eol') == 'crlf':
+        L.append('crlf')
+        L.append(conv + '/crlf')
+    if S['pieces'] >= 2:
+        L.append('pieces=2' if S['pieces'] == 2 else 'pieces>=3')
+        L.append(conv + '/several-writes')
+        if S['inside_line']:
+            L.append('cut-inside-line')
+        if S['delays']:
+            L.append('delays')
+    else:
+        L.append('pieces=1')
+    early = int(chan.get('early', 0))
+    if early >= 1 and S['err_kinds']['pre']:
+        L.append('stderr-before-reading')
+    if early >= 2 and S['stdout_bytes']:
+        L.append('stdout-before-reading')
+    if S['help']:
+        L.append('help-text')
+    if S['result'] is not None and chan.get('res_first') and beh == 'minisat':
+        L.append('result-file-first')
+    if sh.get('exit', 'std') != 'std':
+        L.append('exit-0')
+    if R['verdict']:
+        if beh != 'minisat':
+            lines = [l for l in S['stdout'].split(b'\n') if l[:1] == b'v']
+            L.append('vsplit-' + chan.get('vsplit', 'cuts'))
+            if R['n'] >= 2:
+                L.append('vsep:' + {' ': 'blank', '  ': 'blanks', '\t': 'tab', ' \t ': 'mixed'}[fs._pick(fs.VSEPS, chan.get('vsep', 0))])
+            L.append('vlead:' + {' ': 'blank', '\t': 'tab', '   ': 'blanks'}[fs._pick(fs.VLEADS, chan.get('vlead', 0))])
+            if fs._pick(fs.VTRAILS, chan.get('vtrail', 0)):
+                L.append('v-trailing-blanks')
+            if any(len(l) > 1000 for l in lines):
+                L.append('long-v-line')
+            if len(lines) > 100:
+                L.append('many-v-lines')
+            if chan.get('no_final_eol'):
+                L.append('no-final-eol')
+        else:
+            if R['n'] >= 2 and fs._pick(fs.VSEPS, chan.get('vsep', 0)) != ' ':
+                L.append('fileout-odd-separators')
+            if S['result'] is not None and len(S['result']) > 1000:
+                L.append('fileout-long-line')
+    if beh != 'minisat' and any(f % (len(fs.FILLERS) + len(fs.MORE_FILLERS)) == _LONG_FILL for f in sh.get('fill') or []):
+        L.append('stdout-long-comment')
+    return L
+
+
+def run_channels(case):
+    if not (case.get('shape') or {}).get('chan'):
+        raise ValueError("a case of 'channels' needs shape['chan']")
+    R = execute(case)
+    check_verdict(case, R)
+    check_tmp(case, R)
+    L = sorted(set(labels_of(case, R) + channel_labels(case, R)))
+    active = any(l in L for l in ('stderr-talks', 'crlf', 'pieces=2', 'pieces>=3')) or \
+        any(l.startswith('fileout-stdout-noise:') for l in L)
+    return Outcome(labels=L, nontrivial=bool(R['expect'] == 'verdict' and active), rejected=R['expect'] != 'verdict')
+
+
+_ERR_IDX = st.sampled_from(range(len(fs.ERR_POOL)))
+_ERR_KIND = st.sampled_from(fs.ERR_KINDS)
+_ERR_LIST = st.lists(_ERR_IDX, max_size=3)
+_NOISE_LIST = st.lists(st.sampled_from(fs.NOISE_POOL), max_size=5)
+_CUTS = st.lists(st.sampled_from(range(0, 1001)), max_size=5)
+_DELAYS = st.lists(st.sampled_from(fs.DELAYS_MS), min_size=1, max_size=3)
+_SMALL = st.sampled_from([0, 0, 0, 1, 2, 3])
+_FILL_WIDE = st.lists(st.sampled_from(range(len(fs.FILLERS) + len(fs.MORE_FILLERS))), min_size=1, max_size=6)
+_PLANTED = st.sampled_from(PLANTED_SIZES)
+_SEED = st.sampled_from(range(10000))
+_MANNER = st.sampled_from(['quiet-err', 'any', 'any', 'any', 'kind', 'kind'])
+_STRAT_ANY = strat_any()
+
+
+@st.composite
+def strat_chan(draw):
+    chan = {}
+    manner = draw(_MANNER)
+    if manner == 'kind':
+        # every stderr line of this program is of one kind
+        idx = fs.err_indices(draw(_ERR_KIND))
+        for pos in ('err_pre', 'err_mid', 'err_post'):
+            chan[pos] = [idx[draw(_SMALL) % len(idx)] for _ in range(draw(_SMALL) % 3)]
+        if not any(chan[pos] for pos in ('err_pre', 'err_mid', 'err_post')):
+            chan[draw(st.sampled_from(['err_pre', 'err_mid', 'err_post']))] = [idx[0]]
+    elif manner == 'any':
+        for pos in ('err_pre', 'err_mid', 'err_post'):
+            chan[pos] = draw(_ERR_LIST)
+    chan['err_eol'] = draw(st.sampled_from(['lf', 'lf', 'lf', 'crlf']))
+    chan['err_open'] = draw(_SMALL) == 1
+    chan['noise'] = draw(_NOISE_LIST)
+    chan['eol'] = draw(st.sampled_from(['lf', 'lf', 'crlf']))
+    chan['no_final_eol'] = draw(_SMALL) == 1
+    chan['vsplit'] = draw(st.sampled_from(['cuts', 'cuts', 'each', 'one']))
+    chan['vsep'] = draw(_SMALL)
+    chan['vlead'] = draw(_SMALL)
+    chan['vtrail'] = draw(_SMALL)
+    chan['chunks'] = draw(_CUTS)
+    chan['delays'] = draw(_DELAYS)
+    chan['early'] = draw(st.sampled_from([0, 0, 1, 2]))
+    chan['res_first'] = draw(_SMALL) == 1
+    chan['help'] = draw(_ERR_LIST) if draw(_SMALL) == 1 else []
+    return chan
+
+
+@st.composite
+def strat_channels(draw):
+    case = draw(_STRAT_ANY)
+    if draw(_SMALL) == 1:
+        n, m = draw(_PLANTED)
+        for k in ('nvars', 'clauses', 'blocks'):
+            case.pop(k, None)
+        case['planted'] = {'n': n, 'm': m, 'rseed': draw(_SEED), 'unsat': draw(_SMALL) == 1}
+    sh = case['shape']
+    if sh['status'] != 'answer' and draw(_SMALL) != 1:
+        sh = dict(ENUM_SHAPES[draw(_SMALL) % 3])
+    sh = dict(sh)
+    sh['fill'] = draw(_FILL_WIDE)
+    sh['chan'] = draw(strat_chan())
+    case['shape'] = sh
+    return case
+
+
+def _kinds(*names):
+    """one index per named kind (the variants of a kind in turn)"""
+    out = []
+    for i, nm in enumerate(names):
+        idx = fs.err_indices(nm)
+        out.append(idx[i % len(idx)])
+    return out
+
+
+def enum_chan_layouts():
+    """Fixed descriptions of the other channels; each kind of stderr line appears before, between and
+    after the pieces of standard output at least once."""
+    E = fs.err_indices
+    every = [E(k)[0] for k in fs.ERR_KINDS]
+    second = [E(k)[-1] for k in fs.ERR_KINDS]
+    quiet = {'eol': 'lf'}
+    return [
+        # the program of the demo: version line first, statistics last
+        {'err_pre': [E('version')[0]], 'err_post': [E('statistics')[0]]},
+        {'err_pre': E('s-line')[:1], 'err_mid': E('v-line')[:1], 'err_post': E('single-word')[:1], 'chunks': [500]},
+        {'err_pre': E('v-line')[1:2], 'err_mid': E('s-line')[1:2], 'err_post': E('version')[1:2] + E('statistics')[1:2],
+         'chunks': [250, 750], 'delays': [1, 2]},
+        {'err_pre': E('single-word'), 'err_mid': E('version') + E('statistics'), 'err_post': E('s-line') + E('v-line'),
+         'chunks': [200, 400, 600, 800], 'delays': [0, 1, 3], 'early': 1},
+        {'err_pre': E('empty') + E('c-line'), 'err_mid': E('empty') + E('c-line'), 'err_post': E('c-line') + E('empty'),
+         'eol': 'crlf', 'err_eol': 'crlf', 'chunks': [333]},
+        {'err_pre': E('long')[:1], 'err_mid': E('long')[1:2], 'err_post': E('long')[2:3], 'chunks': [500], 'fill_long': True},
+        {'err_pre': E('non-ascii')[:2], 'err_mid': E('non-ascii')[2:3], 'err_post': E('non-ascii')[3:], 'chunks': [100, 900],
+         'delays': [2]},
+        {'err_post': E('s-line')[2:3] + E('v-line')[2:3], 'err_open': True},
+        {'err_pre': every, 'err_mid': second, 'err_post': every[::-1], 'chunks': [10, 500, 990], 'delays': [1], 'early': 2,
+         'help': every[:3]},
+        # nothing on stderr: the bytes of the answer
+        dict(quiet, eol='crlf', vsplit='each', vsep=2, vlead=1),
+        dict(quiet, vsplit='one', vsep=1, vtrail=1, no_final_eol=True),
+        dict(quiet, eol='crlf', vsplit='one', vsep=3, vlead=2, vtrail=2, chunks=[90, 180, 270, 360, 450, 540, 630, 720, 810, 900],
+             delays=[1, 0, 2]),
+        dict(quiet, vsplit='each', vtrail=3, chunks=[500], delays=[3], early=2, res_first=True),
+        # a minisat-style program is free on its standard output
+        {'noise': fs.NOISE_POOL[:10], 'err_post': E('statistics')[:1], 'res_first': True},
+        {'noise': fs.NOISE_POOL[10:], 'eol': 'crlf', 'vsep': 2, 'chunks': [500], 'err_mid': E('v-line')[:1]},
+    ]
+
+
+def enum_channels(tier):
+    names = _tree_names()
+    layouts = enum_chan_layouts()
+    small = [ENUM_FORMULAS[3], ENUM_FORMULAS[5], BIG, ENUM_FORMULAS[0]]
+    i = 0
+    for a, name in enumerate(names):
+        for b, lay in enumerate(layouts):
+            reps = 1 if tier == 'quick' else 3
+            for r in range(reps):
+                i += 1
+                j = a + b + r
+                lay = dict(lay)
+                sh = dict(ENUM_SHAPES[j % 3])
+                if lay.pop('fill_long', False):
+                    sh['fill'] = [_LONG_FILL, 1, _LONG_FILL + 1]
+                elif j % 2:
+                    sh['fill'] = [(j * 5 + k) % (len(fs.FILLERS) + len(fs.MORE_FILLERS)) for k in range(3)]
+                sh['chan'] = lay
+                kind = j % 4
+                if kind == 3:
+                    exe = EXES[i % len(EXES)]
+                    base = {'mode': 'sameas', 'solver': name, 'exe': exe, 'installed': {exe: 'ok'}}
+                elif kind == 2:
+                    base = {'mode': 'auto', 'installed': {name: 'ok'}}
+                else:
+                    base = {'mode': 'named', 'solver': name, 'installed': {name: 'ok'}}
+                if j % 5 == 4:
+                    n, m = PLANTED_SIZES[j % len(PLANTED_SIZES)]
+                    c = _mk(base, {}, sh, i)
+                    c['planted'] = {'n': n, 'm': m, 'rseed': i, 'unsat': j % 3 == 0}
+                else:
+                    c = _mk(base, small[j % len(small)], sh, i)
+                if kind == 2:
+                    c['flags'] = []
+                c['verbose'] = (0, 0, 0, 2)[j % 4]
+                yield c
+        # no answer on standard output / in the result file, whatever standard error says
+        for b, sh0 in enumerate(ENUM_SHAPES[3:]):
+            i += 1
+            sh = dict(sh0)
+            sh['chan'] = dict(layouts[(a + b) % 9])
+            yield _mk({'mode': 'named', 'solver': name, 'installed': {name: 'ok'}}, small[b % 2], sh, i)
+
+
 _SOLVER_LABELS = ['solver:' + s for s in NAMES]
 _CONV = ['stdin-stdout', 'filein-stdout', 'filein-fileout']
 _SHAPE_LABELS = ['vlines=1', 'vlines=2', 'vlines=3', 'vlines=4', 'zero-same', 'zero-own', 'zero-none',
@@ -1207,4 +1515,20 @@ SUBCHECKS = [
              + ['via:' + v for v in VIAS] + ['tmp:plain', 'bin:plain', 'cmd-extra-blanks', 'cmd-with-arguments',
                                             'cmd-with-arguments-sameas', 'files-passed=0', 'files-passed=1', 'files-passed=2',
                                             'named', 'sameas', 'auto', 'not-installed', 'no-answer', 'sat', 'unsat']),
+    SubCheck('channels', run_channels, strategy=strat_channels, enumerate_cases=enum_channels,
+             quick=360, thorough=24000,
+             rule="the cases of 'named'/'sameas'/'auto' (plus planted formulas of 40/300/1500 variables whose answer is known by construction) answered by a program that also uses its other channels, for each of the three conventions: 0..9 lines on standard error before the first byte of standard output, between its pieces and after the last one, drawn from 28 lines of 11 kinds (version line, statistics, lines starting with 's ' / 'v ' / 'c', a single word, empty and blank lines, lines of 18-20 kB, UTF-8 / Latin-1 / binary bytes, CR at the end; LF or CRLF; last line with or without line end; total < 48 kB), stderr text before the formula is read, text printed for --help; minisat style: the same (ASCII) lines mixed into the statistics on standard output, result file written before or after; layout of the answer: LF/CRLF on standard output and in the result file, 'v' lines cut at generated places / one literal per line (up to 1500 lines) / one single line (up to 9 kB), literals separated by blank(s), tab or both, tab or blanks after the 'v', trailing blanks, terminating 0 on the same line/own line/absent, last line without line end, comment lines of 30 kB, lines of blanks, standard output delivered in 1..11 writes cut at generated byte positions (inside a line too) with pauses of 0..3 ms, exit status 10/20 or 0; every supported name x 15 fixed layouts enumerated; oracle: as in 'named' (exactly one run, the formula received, options forwarded, verdict and model are the ones the truthful program put on standard output / in the result file, model satisfies the formula, RuntimeError when that channel carries no answer whatever standard error says, temporary directory empty); no timing is observed; non-trivial: a verdict obtained while standard error (or minisat's standard output) carries text, or with CRLF, or over several writes",
+             required_labels=['err-pre', 'err-mid', 'err-post', 'stderr-silent', 'stderr-talks', 'err-crlf', 'err-open-end',
+                              'crlf', 'pieces=1', 'pieces=2', 'pieces>=3', 'cut-inside-line', 'delays',
+                              'stderr-before-reading', 'stdout-before-reading', 'help-text', 'result-file-first',
+                              'exit-0', 'exit-10-20', 'vsplit-cuts', 'vsplit-each', 'vsplit-one', 'vsep:blank', 'vsep:blanks',
+                              'vsep:tab', 'vsep:mixed', 'vlead:blank', 'vlead:tab', 'vlead:blanks', 'v-trailing-blanks',
+                              'long-v-line', 'many-v-lines', 'no-final-eol', 'fileout-odd-separators', 'fileout-long-line',
+                              'stdout-long-comment', 'planted-large', 'no-answer-with-stderr-text', 'zero-none', 'zero-own',
+                              'zero-same', 'sat', 'unsat', 'named', 'sameas', 'auto', 'verbose']
+             + ['err:' + k for k in fs.ERR_KINDS]
+             + ['{}/err:{}'.format(c, k) for c in _CONV for k in _KEY_KINDS]
+             + ['{}/{}'.format(c, k) for c in _CONV for k in ('crlf', 'several-writes', 'stderr-talks')]
+             + ['fileout-stdout-noise:' + k for k in fs.ERR_KINDS if k != 'non-ascii']
+             + _SOLVER_LABELS + _CONV),
 ]
